@@ -1,14 +1,14 @@
 #!/bin/bash
-# stage the output of a seeding agent: tools/seed_stage.sh <ID>   (reads /tmp/seed/<ID>/_out, removes the worktree)
-id=$1
+# stage the output of a seeding agent: tools/seed_stage.sh <ID> [basedir=/tmp/seed] [offset=0]
+id=$1; base=${2:-/tmp/seed}; off=${3:-0}
 for k in 1 2; do
-  o=/tmp/seed/$id/_out
+  o=$base/$id/_out; n=$((k+off))
   if [ -f $o/change$k.diff ] && [ -f $o/demo$k.py ]; then
-    mkdir -p /verif/seeded/$id-$k
-    cp $o/change$k.diff /verif/seeded/$id-$k/patch.diff
-    cp $o/demo$k.py /verif/seeded/$id-$k/demo.py
-    [ -f $o/notes$k.md ] && cp $o/notes$k.md /verif/seeded/$id-$k/notes.md
-    echo staged $id-$k
+    mkdir -p /verif/seeded/$id-$n
+    cp $o/change$k.diff /verif/seeded/$id-$n/patch.diff
+    cp $o/demo$k.py /verif/seeded/$id-$n/demo.py
+    [ -f $o/notes$k.md ] && cp $o/notes$k.md /verif/seeded/$id-$n/notes.md
+    echo staged $id-$n
   fi
 done
-git -C /repo worktree remove --force /tmp/seed/$id && rm -rf /tmp/seed/$id /tmp/seed/$id-cache && git -C /repo worktree prune
+git -C /repo worktree remove --force $base/$id && rm -rf $base/$id $base/$id-cache && git -C /repo worktree prune
